@@ -69,7 +69,8 @@ class KDTree:
         queue.append(root)
         while len(queue)>0:
             leaf = queue.popleft()
-            if leaf.size <= max_leaf_size: # the leaf has the correct size -> add it to the tree
+            if leaf.size <= max_leaf_size or (self.points[leaf.points] == self.points[leaf.points[0]]).all():
+                # the leaf has the correct size (or only holds copies of one point, which cannot be separated) -> add it to the tree
                 self.nodes.append(leaf)
             else: # the leaf needs to be split
                 # split the points according to the current axis
@@ -103,6 +104,8 @@ class KDTree:
         pts_ax = self.points[pt_idx,axis] # 1D array of the considered coordinate to split 
         pivot = self._find_pivot(pts_ax)
         pivot_filter = pts_ax <= pivot
+        if pivot_filter.all(): # the pivot is the largest coordinate: send the largest points to the right instead of separating nothing
+            pivot_filter = pts_ax < pivot
         idx_less = np.extract(pivot_filter, pt_idx)
         idx_more = np.extract(~pivot_filter, pt_idx)
         return pivot, idx_less, idx_more
